@@ -46,8 +46,11 @@ def gen_block(rng):
             lines.append("%s = %s%s%s" % (var(), q, inner, q))
         elif r < 0.55:
             lines.append("%s = 1 + \\\n      2" % var())
-        elif r < 0.65:
+        elif r < 0.62:
             lines.append("# a comment with 'quote and \"\"\" triple")
+        elif r < 0.65:
+            # a comment that ends in a backslash continues nothing
+            lines.append(rng.choice(["# the directory is c:\\tmp\\", "%s = 1  # ends with \\" % var()]))
         elif r < 0.72:
             lines.append("")
         elif r < 0.85:
@@ -447,6 +450,7 @@ def run(ctx):
         req.append("adjust|" + enc(text))
         cases.append((text, got))
         weak = "\"#\" + '''" in src
+        cweak = any(__import__("re").search(r"#.*\\$", ln) for ln in src.split("\n"))
         # line count
         if got.count("\n") != text.count("\n"):
             ctx.violation({"block": text, "adjusted": got}, "re-margining changed the number of lines", tags=["c19.margin.lines"])
@@ -461,9 +465,9 @@ def run(ctx):
             if native != adjusted:
                 diff = {k: (native.get(k), adjusted.get(k)) for k in set(native) | set(adjusted) if native.get(k) != adjusted.get(k)}
                 ctx.violation({"block": text, "adjusted": got, "differing_values": repr(diff)},
-                              "the re-margined block binds different values than the block as written", tags=["c19.margin.hash-in-string" if weak else "c19.margin.values"])
+                              "the re-margined block binds different values than the block as written", tags=["c19.margin.hash-in-string" if weak else "c19.margin.comment-backslash" if cweak else "c19.margin.values"])
         except SyntaxError as e:
-            ctx.violation({"block": text, "adjusted": got, "error": str(e)}, "the re-margined block no longer compiles", tags=["c19.margin.hash-in-string" if weak else "c19.margin.compile"])
+            ctx.violation({"block": text, "adjusted": got, "error": str(e)}, "the re-margined block no longer compiles", tags=["c19.margin.hash-in-string" if weak else "c19.margin.comment-backslash" if cweak else "c19.margin.compile"])
         except Exception:  # noqa
             pass
     ctx.generators["margin_blocks"] = {"cases": nb}
@@ -481,6 +485,7 @@ def run(ctx):
         req2.append("flush|%d|%s" % (level, enc(got)))
         cases2.append((got, level, out))
         weak = "\"#\" + '''" in text
+        cweak = any(__import__("re").search(r"#.*\\$", ln) for ln in text.split("\n"))
         # the printer's own detector counts triple-quote tokens wherever they stand: one inside a comment flips its state
         pweak = any(ln.lstrip().startswith("#") and ('\"\"\"' in ln or "'''" in ln) for ln in text.split("\n"))
         # end to end: the block inside a template at that nesting level binds the same values as the block as written
@@ -504,11 +509,11 @@ def run(ctx):
             want = "".join("%r|" % native[n_] for n_ in names if n_ in native)
             if all(n_ in native for n_ in names) and rendered.strip() != want.strip():
                 ctx.violation({"template": tsrc, "rendered": rendered.strip()[:300], "expected": want[:300]},
-                              "a code block inside a template binds different values than the block as written", tags=["c19.margin.hash-in-string" if weak else "c19.margin.printer-quote-in-comment" if pweak else "c19.margin.template-values"])
+                              "a code block inside a template binds different values than the block as written", tags=["c19.margin.hash-in-string" if weak else "c19.margin.printer-quote-in-comment" if pweak else "c19.margin.comment-backslash" if cweak else "c19.margin.template-values"])
         except Exception as e:  # noqa
             if all(n_ in native for n_ in names):
                 ctx.violation({"template": tsrc, "error": repr(e)[:200]}, "a code block that runs as written fails inside a template",
-                              tags=["c19.margin.hash-in-string" if weak else "c19.margin.printer-quote-in-comment" if pweak else "c19.margin.template-raise"])
+                              tags=["c19.margin.hash-in-string" if weak else "c19.margin.printer-quote-in-comment" if pweak else "c19.margin.comment-backslash" if cweak else "c19.margin.template-raise"])
     ctx.generators["printer_blocks"] = {"cases": len(cases2)}
     if model_ok:
         for (got, level, out), m in zip(cases2, common.run_driver(PROP, req2)):
